@@ -58,7 +58,8 @@ CFG = {
     "C14": dict(pkg="core", shards=(8, 16), tests=[
         dict(test="^TestC14Enum$", checks=(2, 40)),
         dict(test="^TestC14Step$", checks=(1000, 20000)),
-        dict(test="^TestC14Soup$", checks=(20000, 1000000))]),
+        dict(test="^TestC14Soup$", checks=(20000, 1000000)),
+        dict(test="^TestC14Pending$", checks=(200, 20000))]),
     "C15": dict(pkg="core", test="^TestC15$", shards=(4, 16), checks=(20000, 400000)),
     "C16": dict(pkg="core", test="^TestC16$", shards=(1, 1), checks=(1, 1)),
     "C17": dict(pkg="zexchk", test="^TestC17$", shards=(1, 1), checks=(1, 1)),
